@@ -217,7 +217,7 @@ pub const SUBS: &[Sub] = &[Sub { name: "modules", f: sub_modules }];
 
 pub fn run(ctx: &Ctx) {
     run_regress(ctx, SUBS);
-    drive_random(ctx, &SUBS[0], ctx.n(60_000, 3_000_000), 600);
+    drive_random(ctx, &SUBS[0], ctx.n(60_000, 30_000_000), 600);
 }
 
 pub fn finish(ctx: &Ctx) -> i32 {
